@@ -91,7 +91,7 @@ func clItemImmutable(c *Ctx) {
 			case "store":
 				checkFresh(w, "store to Item."+fv.Name())
 			case "CAS":
-				ok := fv == fDead && p.sameRoot(w.fn, delNode) && isConstInt(0)(callOf(w.in).Args[1])
+				ok := fv == fDead && p.sameRoot(w.fn, delNode) && isConstInt(0)(atomicArgs(w.in)[1])
 				c.Check(ok, w.fn, w.in, cnt.in(w.fn, "CAS on Item."+fv.Name()), "the only permitted in-place update of a published item is DeleteNode's CompareAndSwap(&deadSn, 0, currSn)")
 			default:
 				c.Check(false, w.fn, w.in, cnt.in(w.fn, "atomic "+w.kind+" on Item."+fv.Name()), "published item header is overwritten unconditionally")
@@ -266,7 +266,7 @@ func clEpochCapture(c *Ctx) {
 		return
 	}
 	if k, _ := atomicOp(inc); k == "Add" {
-		c.Check(isConstInt(1)(callOf(inc).Args[1]), fn, inc, "epoch advances by exactly one", "the collector's in-order rule (sn == lastGCSn+1) requires consecutive snapshot numbers")
+		c.Check(isConstInt(1)(atomicArgs(inc)[1]), fn, inc, "epoch advances by exactly one", "the collector's in-order rule (sn == lastGCSn+1) requires consecutive snapshot numbers")
 	}
 	isCurr := func(v ssa.Value) (ssa.Instruction, bool) {
 		call, ok := strip(v).(*ssa.Call)
